@@ -44,6 +44,22 @@ def _user_chunk(vecs):
         except Exception as ex:
             bad.append(('expand raised', dict(case, exception=type(ex).__name__, site=common.innermost_emmet_frame(ex))))
             continue
+        # the same table handed over in other forms gives the same expansion: through the global configuration of a ready-made
+        # Config, and - with a text to wrap - through the global configuration of a dict call
+        opts = {'output.format': False, 'output.selfClosingStyle': 'xhtml', 'output.reverseAttributes': v['reverse']}
+        k = zlib.crc32((v['abbr'] + repr(sorted(table.items()))).encode()) % 3
+        try:
+            if k == 0:
+                alt = common.guarded(lambda: emmet.expand(v['abbr'], emmet.Config({'options': opts}, {'markup': {'snippets': dict(table)}})), 10)
+                if alt != text:
+                    bad.append(('alias-expansion (table through the global configuration of a Config)', dict(case, expected=text, actual=alt)))
+            elif k == 1:
+                a1 = common.guarded(lambda: emmet.expand(v['abbr'], {'text': 'W w', 'snippets': dict(table), 'options': opts}), 10)
+                a2 = common.guarded(lambda: emmet.expand(v['abbr'], {'text': 'W w', 'options': opts}, {'html': {'snippets': dict(table)}}), 10)
+                if a1 != a2:
+                    bad.append(('alias-expansion (table through the global configuration, with a text to wrap)', dict(case, expected=a1, actual=a2)))
+        except Exception as ex:
+            bad.append(('expand raised', dict(case, exception=type(ex).__name__, site=common.innermost_emmet_frame(ex), form='table through the global configuration')))
         try:
             got = _listing(text)
         except ph.LexError as ex:
